@@ -7,11 +7,11 @@ ROOT = os.path.dirname(os.path.dirname(os.path.abspath(__file__)))
 BOUND = " Bounded exploration: complete only inside the enumerated scope stated in the evidence rule; beyond it the property is sampled, and absence of violations elsewhere is not established."
 
 CLAIMED = {
- "C01": ("race-detector stress: generated pair/triple/mix scenarios of all public methods, free-running under -race with monitors (race log, panics, sanity calls, watchdog)",
-         "For every lock-guarded container type every ordered pair of public methods (thorough: every triple, hundreds of random 4-8 goroutine mixes) from three initial contents is executed repeatedly under the Go race detector with varied GOMAXPROCS and injected yields; any race report whose access site is in gogu code, any panic, an unusable instance afterwards or a scenario that never finishes is a violation attributed to the scenario that was running. The detector is happens-before based, so one execution of a racing pair suffices; deadlocks and interleaving-dependent panics are only sampled here (the controlled scheduler of C02 enumerates them for small programs)." + BOUND,
+ "C01": ("race-detector stress (generated pair/triple/mix scenarios of all public methods incl. rejected inputs, free-running under -race with monitors: race log, panics, sanity calls, watchdog) + controlled-scheduler enumeration of the interleavings of all public methods of heap/trie/cache for deadlock, livelock, leaked locks and interleaving-dependent panics",
+         "For every lock-guarded container type every ordered pair of public methods (thorough: every triple, hundreds of random 4-8 goroutine mixes) from three initial contents is executed repeatedly under the Go race detector with varied GOMAXPROCS and injected yields; any race report whose access site is in gogu code, any panic, an unusable instance afterwards or a scenario that never finishes is a violation attributed to the scenario that was running. The detector is happens-before based, so one execution of a racing pair suffices; a second stage runs the controlled scheduler of C02 over ALL public methods (also variadic Push, Merge/Meld in both directions and with itself, Keys/StartsWith/LongestPrefix, List/MapToCache/Flush, rejected inputs) of heap, trie and cache: every schedule of every 2x1 program, sampled 3x1 and the 4-thread cross-merge programs, judged for deadlock, livelock, a call that blocks even one-at-a-time (leaked lock) and panics that no sequential order shows." + BOUND,
          "Trusts the Go race detector (bounded shadow history, only executed code). Free-running schedules are sampled, not enumerated. Reentrant callbacks are outside the domain.", "3.6, 4 (C01)", "c01"),
- "C02": ("controlled-scheduler enumeration of all interleavings (stateless DFS at lock granularity over a sync shim applied source-to-source to a scratch copy) + differential linearizability oracle against sequential runs of the same build; rapid for larger programs",
-         "For each container every program of 2x1, 3x1, (2||1) and 2x2 single-element calls (quick: all but a seeded quarter of the 2x2 programs sampled) from three initial states is executed under EVERY schedule at lock-acquisition granularity by a cooperative scheduler that replaces package sync in a scratch copy of the working tree; each execution's results and follow-up observation must equal those of some one-at-a-time order of the same calls that respects real-time precedence; deadlock is a violation. Random larger programs (2-3 threads x 1-3 calls) with random schedules are shrunk by rapid. Complete at that granularity for the enumerated programs because race-free Go programs are sequentially consistent (race freedom is C01)." + BOUND,
+ "C02": ("controlled-scheduler enumeration of all interleavings (stateless DFS over a sync / sync-atomic shim applied source-to-source to a scratch copy; scheduling points at lock arrival and acquisition, at every atomic operation and after every unlock) + differential linearizability oracle against sequential runs of the same build; rapid for larger programs",
+         "For each container every program of 2x1, 3x1, (2||1) and 2x2 single-element calls (quick: all but a seeded quarter of the 2x2 programs sampled) from three initial states (cache: a fourth with an expired, unpurged entry; DeleteExpired among its operations) is executed under EVERY schedule at lock-acquisition granularity (plus scheduling points at atomics and after unlocks) by a cooperative scheduler that replaces package sync in a scratch copy of the working tree; each execution's results and follow-up observation must equal those of some one-at-a-time order of the same calls that respects real-time precedence; deadlock is a violation. Random larger programs (2-3 threads x 1-3 calls) with random schedules are shrunk by rapid. Complete at that granularity for the enumerated programs because race-free Go programs are sequentially consistent (race freedom is C01)." + BOUND,
          "Trusts the vsync shim's model of RWMutex (writer preference) and that all shared accesses happen inside critical sections (C01). Library-spawned goroutines (Traverse, cache cleanup) are excluded. Sequential defects cannot mask or pollute the verdict because the oracle is differential.", "3.5, 4 (C02)", "c02"),
  "C03": ("model-based stateful PBT (multiset + comparator model), bounded-exhaustive sequences + rapid; Sort as permutation/order oracle",
          "Operation sequences over Push/Pop/Peek/Clear/Convert/Delete/Merge/Meld/FromSlice with three comparators are executed against a multiset model: extremality of Pop/Peek, exact conservation (Size, IsEmpty, GetValues as multiset, Delete results), Merge/Meld/Convert/FromSlice contracts, final drain; Sort checked as ordered permutation. One open known finding (Delete leaves the vacated slot unsifted, pinned by the repository's tests) suspends only order assertions after such a Delete; conservation stays exact." + BOUND,
@@ -40,31 +40,31 @@ CLAIMED = {
  "C11": ("differential PBT against quadratic reference implementations written from the statement, bounded-exhaustive tuples of small slices and nestings + rapid",
          "All slices up to the bound over a small alphabet, all tuples of 1..3 slices, all nestings up to depth 3 (incl. malformed ones) and a finite family of key functions are compared with independent quadratic references; unordered results as sets; By-variants by their defining subsequence/qualification property." + BOUND,
          "Trusts the quadratic references; no NaN floats.", "4 (C11)", "pbt"),
- "C12": ("metamorphic/identity PBT (concatenation, partition, permutation, transpose, involution identities; callback visit logs), bounded-exhaustive + rapid + native fuzz target",
+ "C12": ("metamorphic/identity PBT (concatenation, partition, permutation, transpose, involution identities; callback visit logs; callbacks that observe the argument during the call), bounded-exhaustive + rapid (incl. slices of up to 20000 elements, nestings of depth up to 48, arguments that are windows of one array, signed zeros) + native fuzz target",
          "All small slices with every chunk size, drop count, predicate/key from a finite family, square matrices and nestings are checked by the conservation identities of the statement; documented panics count as rejection." + BOUND,
          "Trusts the identities as executable readings of the statement.", "4 (C12)", "pbt"),
  "C13": ("definitional-oracle PBT (defining inequalities / quantifier references / closed-form Range reference), bounded-exhaustive incl. all int8 triples + rapid",
          "All small slices with every probe and index window, all int8 triples for Clamp/InRange/Abs, all (start,step,end) in [-10,10]^3 and the shorter/longer argument forms for Range, across several element types, against definitional references; panics inside the documented domain are violations." + BOUND,
          "Trusts the references; documented domain restrictions (no NaN, no overflow, Abs of the type minimum, non-empty Mean) stated in the rule.", "4 (C13)", "pbt"),
- "C14": ("reference-model PBT over maps with set/defining-property comparison, each case executed under several map iteration orders, bounded-exhaustive + rapid",
+ "C14": ("reference-model PBT over maps with set/defining-property comparison, each case executed under several map iteration orders, bounded-exhaustive + rapid (incl. maps of up to 2048 entries and pointer-valued maps)",
          "All maps with up to 4 entries over 4 keys x 3 values, key lists and predicates from a finite family, and small collections of maps are checked against references; unordered or free choices by their defining property; each case runs several times because Go randomises map iteration." + BOUND,
          "Trusts the references.", "4 (C14)", "pbt"),
  "C15": ("byte-level reference + round-trip PBT, bounded-exhaustive strings/offsets/tokens + rapid + native fuzz target",
          "All strings up to 5 (6) symbols over an alphabet mixing ASCII, multi-byte runes and token characters with every offset/length/index/size in a window around the length plus the int extremes are compared with a byte-level PHP-rule Substr reference, split/pad/wrap identities and Unicode case mapping; case styles by the clauses the statement lists." + BOUND,
          "Trusts the references; empty pad token and invalid UTF-8 for rune helpers are outside the domain.", "4 (C15)", "pbt"),
- "C16": ("snapshot-differential PBT: deep snapshots incl. capacity region and sentinels before/after every helper call and call pair over a registry of all exported helpers",
+ "C16": ("snapshot-differential PBT: deep snapshots incl. capacity region and sentinels before / DURING (from inside the callbacks) / after every helper call and call pair over a registry of all exported helpers; string results re-compared with byte-wise copies after later calls",
          "92 call forms of every exported slice/map helper run on arguments placed in backing arrays with spare capacity and sentinels; all single calls and all ordered pairs sharing an argument are enumerated over a small input scope: arguments must be unchanged (in-place helpers: only their documented argument, never beyond len) and earlier results must not be altered by later calls." + BOUND,
-         "Aliasing is judged by observable alteration only (no pointer comparison); strings are immutable in Go, so string helpers are vacuous here.", "4 (C16)", "pbt"),
- "C17": ("timeline PBT in virtual time (synctest) with exact-instant oracle; free-running sub-check with in-flight counters",
+         "Aliasing is judged by observable alteration only (no pointer comparison); string results are compared with byte-wise copies taken when they were returned (sub-check strings).", "4 (C16)", "pbt"),
+ "C17": ("timeline PBT in virtual time (synctest) with exact-instant oracle (outcomes value / error / item together with error); sequential sub-check for results the cache cannot store; free-running sub-check with in-flight counters (also race-built in the thorough tier)",
          "Generated call timelines (1-16 callers, 1-3 keys, latencies 0/3/21ms, value/error outcomes, expiry none/40ms) run in a synctest bubble; single flight, provenance of every result, join semantics, cache-hit semantics, error non-caching and key isolation are decided on exact virtual instants, leniently at coinciding instants; every timeline of up to 3 (4) calls is enumerated. A free-running sub-check hammers the API with real goroutines (race-built in the thorough tier)." + BOUND,
          "Trusts synctest's fake clock; the oracle models which results are actually cached (documented in DESIGN).", "4 (C17)", "pbt"),
- "C18": ("exhaustive small-scope PBT with counting callbacks; RetryWithDelay in virtual time",
+ "C18": ("exhaustive small-scope PBT with counting callbacks (results incl. the zero value); RetryWithDelay in virtual time with callbacks that take time",
          "n in -2..8 x calls 0..12 x every success/failure pattern up to length 8 (the quantifier's full scope) is enumerated for After/Before/Once/Retry/RetryWithDelay with counting callbacks returning fresh values; delays are measured in a synctest bubble." + BOUND,
          "Trusts synctest's fake clock for the delay lower bound.", "4 (C18)", "pbt"),
- "C19": ("model-based stateful PBT (slice model) over both list types with bounded Each, bounded-exhaustive + rapid, fixed closing script",
+ "C19": ("model-based stateful PBT (slice model) over both list types with bounded Each, bounded-exhaustive + rapid, fixed closing script; separate sub-checks with repeated values",
          "Every operation sequence up to length 5 (thorough 6-7) on SList and DList with node handles taken from Find immediately before use, against a slice model observed through a bounded Each, First/Last and Find after every call, followed by a closing script that edits next to every node (stale links only show on later edits)." + BOUND,
          "Trusts the slice model; distinct non-zero values; nil handle only for the inserts.", "4 (C19)", "pbt"),
- "C20": ("timeline PBT in virtual time (synctest): delay, debounce and throttle event sequences with exact-instant oracles, bounded-exhaustive + rapid",
+ "C20": ("timeline PBT in virtual time (synctest): delay, debounce (also with debounced functions that take time) and throttle event sequences with exact-instant oracles, bounded-exhaustive + rapid",
          "Delay/Stop placements, debounce bursts (single and simultaneous callers, cancel) and throttle Call/Next/Cancel arrangements with 1-3 consumer goroutines run in a synctest bubble; never-early, at-most-once-per-burst, cancel, liveness, one-permission-per-period, trailing-only-when-configured and prompt-Cancel are decided on exact instants, leniently when two events coincide." + BOUND,
          "Trusts synctest's fake clock and that sync.Cond.Wait is durably blocking in a bubble; real-timer lateness is outside what is asserted.", "4 (C20)", "pbt"),
 }
